@@ -59,6 +59,9 @@ def events(env, tier):
     # a loop variable called like a variable declared before (inside the loop the name is the loop value)
     if "n" in env:
         ev.append(("for", "int", "n", ("range", 0, 2, None), [("stmt", "L7", [V("n"), B("+", V("n"), N("5"))], [("k", V("n"))], [V("n")], "none")]))
+    # a body of several statements of different kinds (differently named measurements, gates with / without arguments)
+    ev.append(("for", "int", "m", ("range", 0, 2, None), [("stmt", "MeasureX", None, [], [V("m")], "none"), ("stmt", "MeasureP", None, [], [B("+", V("m"), N("2"))], "none"),
+                                                          ("stmt", "G", [V("m")], [], [V("m")], "none"), ("stmt", "MeasureHomodyne", [], [("phi", V("m"))], [N("0")], "none"), ("stmt", "Vac", None, [], [N("1")], "none")]))
     ev.append(("blank",))
     return ev
 
